@@ -35,22 +35,12 @@ void judge(eng::Ctx& ctx, const std::string& what, bool got, bool want, const re
 
 } // namespace
 
-void harness::run_case(const eng::Raw& raw, eng::Ctx& ctx)
+static void check_pair(eng::Ctx& ctx, const gen::PairCase& c, bool first)
 {
-	gen::Limits lim;
-	lim.maxStates = ctx.tier() ? 5 : 4;
-	lim.arity3 = true;
-	//                          indep sup abl split leaf detB degen
-	const std::vector<int> w = {3,    2,  4,  6,    2,   2,   1};
-	gen::PairCase c = gen::decode_pair(raw, lim, w);
-	ctx.describe(gen::describe_pair(c));
-	ctx.tag(std::string("strategy:") + gen::strategy_name(c.strategy));
-	ctx.small_case(c.A.states().size() <= 6 && c.B.states().size() <= 6 && c.A.rules.size() <= 12 && c.B.rules.size() <= 12);
-
 	ref::InclResult expect;
 	if (!inclc::reference_verdict(ctx, c.A, c.B, expect)) return;
 	const bool want = (expect.verdict == ref::Tri::YES);
-	ctx.tag(want ? "verdict:included" : "verdict:not-included");
+	ctx.tag(first ? (want ? "verdict:included" : "verdict:not-included") : (want ? "converse:included" : "converse:not-included"));
 	{
 		ref::TA ta = c.A.trim();
 		bool deep = false, shaped = false;
@@ -62,8 +52,8 @@ void harness::run_case(const eng::Raw& raw, eng::Ctx& ctx)
 				if (multi >= 2) shaped = true;
 			}
 		}
-		ctx.nontrivial(deep && !c.B.empty_lang());
-		if (shaped) ctx.tag("two-children-with-several-macrostates");
+		if (first) ctx.nontrivial(deep && !c.B.empty_lang());
+		if (shaped) ctx.tag(first ? "two-children-with-several-macrostates" : "converse:two-children-with-several-macrostates");
 	}
 
 	const VATA::SimParam spDown = [] { VATA::SimParam sp; sp.SetRelation(VATA::SimParam::e_sim_relation::TA_DOWNWARD); return sp; }();
@@ -127,8 +117,8 @@ void harness::run_case(const eng::Raw& raw, eng::Ctx& ctx)
 		catch (const std::exception& e) { ctx.fail("bdd-incl:bu:down-rec:sim:exception", e.what()); }
 
 		// unimplemented selections must throw (sampled: the sweep costs 125 calls)
-		if (c.header[7] % 10 == 3) {
-			ctx.tag("must-throw-sweep");
+		if (first && c.header[7] % 10 == 3) {
+			if (first) ctx.tag("must-throw-sweep");
 			VATA::AutBase::StateDiscontBinaryRelation dummy;
 			for (unsigned word = 0; word < 128; ++word) {
 				if (word == 0 || word == 16 || word == (2 | 8 | 16)) continue;   // implemented; UP_SIM not claimed
@@ -197,8 +187,8 @@ void harness::run_case(const eng::Raw& raw, eng::Ctx& ctx)
 			}
 			catch (const std::exception& e) { ctx.fail("bdd-incl:" + name + ":exception", e.what()); }
 		}
-		if (c.header[7] % 10 == 4) {
-			ctx.tag("must-throw-sweep");
+		if (first && c.header[7] % 10 == 4) {
+			if (first) ctx.tag("must-throw-sweep");
 			VATA::AutBase::StateDiscontBinaryRelation dummy;
 			for (unsigned word = 0; word < 128; ++word) {
 				if (word == (2 | 8) || word == (2 | 8 | 4) || word == (2 | 8 | 16) || word == (2 | 8 | 4 | 16)) continue;
@@ -215,4 +205,23 @@ void harness::run_case(const eng::Raw& raw, eng::Ctx& ctx)
 			}
 		}
 	}
+}
+
+void harness::run_case(const eng::Raw& raw, eng::Ctx& ctx)
+{
+	gen::Limits lim;
+	lim.maxStates = ctx.tier() ? 5 : 4;
+	lim.arity3 = true;
+	//                          indep sup abl split leaf detB degen
+	const std::vector<int> w = {3,    2,  4,  6,    2,   2,   1};
+	gen::PairCase c = gen::decode_pair(raw, lim, w);
+	ctx.describe(gen::describe_pair(c));
+	ctx.tag(std::string("strategy:") + gen::strategy_name(c.strategy));
+	ctx.small_case(c.A.states().size() <= 6 && c.B.states().size() <= 6 && c.A.rules.size() <= 12 && c.B.rules.size() <= 12);
+
+	check_pair(ctx, c, true);
+	// the converse question on the same pair, in the same child
+	gen::PairCase d(c);
+	std::swap(d.A, d.B); std::swap(d.nA, d.nB); std::swap(d.numA, d.numB); std::swap(d.orderA, d.orderB);
+	check_pair(ctx, d, false);
 }
